@@ -81,6 +81,9 @@ def run(run):
     for g in GENS:
         for s in seeds:
             calls.append({"api": "gen:" + g, "seed": s})
+            if g.endswith("_equation"):
+                # the returned network is edited in place, then the same seeded call is made again
+                calls.append({"api": "gen:" + g, "seed": s, "kw": {"repeat": True}})
     envs = [{"hashseed": 0, "perturb": 1, "order": 1}, {"hashseed": 1, "perturb": 2, "order": 2},
             {"hashseed": 12345, "perturb": 3, "order": 3}, {"hashseed": "random", "perturb": 4, "order": 4}]
     if not quick:
